@@ -126,4 +126,14 @@ theorem gen_update_rrdp_needed_eq_model (r : Rrdp) (last_update now : Int) (h : 
   cases r.hasStaged <;> simp
   omega
 
+/-- A staged change is published at the latest when the minimal interval has passed: whatever was answered before
+(`Later t` re-schedules the task for `t`), from `t = last_update + interval` on the answer is `Yes` for as long as the
+change is still staged and no other update intervened (`last_update` unchanged). -/
+theorem staged_update_due_after_interval (last_update interval now : Int) (t : Int)
+    (h : KM.Gen.C11.RrdpServer.update_rrdp_needed true last_update interval now = .Later t) :
+    ∀ now' ≥ t, KM.Gen.C11.RrdpServer.update_rrdp_needed true last_update interval now' = .Yes := by
+  intro now' hn
+  have ht := ((gen_update_rrdp_needed_iff true last_update interval now).2.1 t).mp h
+  exact (gen_update_rrdp_needed_iff true last_update interval now').1.mpr ⟨rfl, by omega⟩
+
 end KM.Props.C11Src
